@@ -45,6 +45,9 @@ pub enum Op {
     Display,
     CloneUse,
     CloneDrop,
+    /// clones of the keys are put into a thread-local of the caller and dropped when the thread exits
+    /// (after the library's own thread-locals, which were created later, are gone)
+    CloneKeepUntilThreadExit,
     PublicKey,
     Yield,
     Spin(u8),
@@ -83,6 +86,7 @@ fn op_strategy(heavy_ok: bool) -> impl Strategy<Value = Op> {
         3 => Just(Op::Display),
         5 => Just(Op::CloneUse),
         5 => Just(Op::CloneDrop),
+        2 => Just(Op::CloneKeepUntilThreadExit),
         3 => Just(Op::PublicKey),
         2 => Just(Op::Yield),
         2 => (1u8..40).prop_map(Op::Spin),
@@ -385,6 +389,15 @@ fn exec<B: Backend>(s: &Shared<B>, x: &Expect, op: Op) -> Result<(), String> {
             drop(d);
             if ok { Ok(()) } else { Err("clone of a clone encodes differently".into()) }
         }
+        Op::CloneKeepUntilThreadExit => {
+            KEPT.with(|k| {
+                let mut k = k.borrow_mut();
+                if k.len() < 64 {
+                    k.push(Box::new((s.lk.clone(), s.sk.clone(), s.pk.clone(), s.pke_sk.clone(), s.pke_pk.clone())));
+                }
+            });
+            Ok(())
+        }
         Op::PublicKey => {
             if key_bytes(&s.sk.public_key()) == key_bytes(&s.pk) { Ok(()) } else { Err("public_key() differs".into()) }
         }
@@ -399,6 +412,12 @@ fn exec<B: Backend>(s: &Shared<B>, x: &Expect, op: Op) -> Result<(), String> {
             Ok(())
         }
     }
+}
+
+thread_local! {
+    /// what a worker thread keeps until it exits; touched FIRST on every worker thread, before any
+    /// library call, so that it is destroyed after every thread-local the library creates
+    static KEPT: std::cell::RefCell<Vec<Box<dyn std::any::Any>>> = const { std::cell::RefCell::new(Vec::new()) };
 }
 
 const PROBES: [Op; 12] = [Op::Sign(0), Op::Verify(1), Op::Encrypt(2), Op::Decrypt(3), Op::UnwrapPie, Op::UnwrapPw, Op::Id, Op::Display, Op::PublicKey, Op::CloneUse, Op::VerifyBad(0), Op::DecryptBad(1)];
@@ -471,6 +490,7 @@ fn plan_body<B: Backend>(p: Plan, prog: Arc<Progress>) -> Result<Outcome, String
     for (ti, ops) in p.threads.iter().enumerate() {
         let (sh, ex, ba, ops, pr) = (shared.clone(), expect.clone(), barrier.clone(), ops.clone(), prog.clone());
         handles.push(std::thread::spawn(move || -> Vec<String> {
+            KEPT.with(|k| k.borrow_mut().clear());
             crate::rng::set_passthrough();
             ba.wait();
             let mut bad = Vec::new();
@@ -727,7 +747,7 @@ pub fn def() -> PropertyDef {
     PropertyDef {
         id: "C17",
         level: "exploration",
-        rule: "proptest plans: 1..16 real threads x up to 40 operations each over {sign, verify, encrypt, decrypt, PIE wrap/unwrap, password unwrap, key seal/unseal, id, display, public_key, clone-and-use, clone-and-drop, failing variants (corrupted tokens: flipped character / zeroed tag or signature (r = s = 0) / zeroed first half (r = 0) / truncated; wrong assertion, wrong wrapping key, wrong password, right password on a blob with changed cost parameters - other valid ones and six kinds the KDF refuses -, corrupted sealed key), yield / spin points} on ONE shared key set started on a barrier; oracle = sequential model: deterministic operations return exactly the value precomputed on a separate copy of the keys, randomised ones verify / decrypt to the original, failing ones fail, nothing panics; after every plan a fixed probe set on the shared keys gives the sequential results (failed operations must not alter a key). Every operation must also RETURN: the plan is supervised, and when nothing completes for 60 s the threads inside library calls are classified through /proc (spinning: >= 20% CPU of the last 30 s; blocked: all asleep with no CPU time); the same operations are then run on a fresh copy of the keys in a fresh process, and only if they return there within 15 s is the non-return reported as a violation (otherwise inconclusive, exit 2). Each back end runs in its own child process: a crash (SIGSEGV / SIGABRT / double free) is reported as a violation. Non-trivial iff >= 2 threads with a clone/drop overlapping uses, or a single-thread history containing failing operations",
+        rule: "proptest plans: 1..16 real threads x up to 40 operations each over {sign, verify, encrypt, decrypt, PIE wrap/unwrap, password unwrap, key seal/unseal, id, display, public_key, clone-and-use, clone-and-drop, clones kept in a thread-local of the caller until the worker thread exits, failing variants (corrupted tokens: flipped character / zeroed tag or signature (r = s = 0) / zeroed first half (r = 0) / truncated; wrong assertion, wrong wrapping key, wrong password, right password on a blob with changed cost parameters - other valid ones and six kinds the KDF refuses -, corrupted sealed key), yield / spin points} on ONE shared key set started on a barrier; oracle = sequential model: deterministic operations return exactly the value precomputed on a separate copy of the keys, randomised ones verify / decrypt to the original, failing ones fail, nothing panics; after every plan a fixed probe set on the shared keys gives the sequential results (failed operations must not alter a key). Every operation must also RETURN: the plan is supervised, and when nothing completes for 60 s the threads inside library calls are classified through /proc (spinning: >= 20% CPU of the last 30 s; blocked: all asleep with no CPU time); the same operations are then run on a fresh copy of the keys in a fresh process, and only if they return there within 15 s is the non-return reported as a violation (otherwise inconclusive, exit 2). Each back end runs in its own child process: a crash (SIGSEGV / SIGABRT / double free) is reported as a violation. Non-trivial iff >= 2 threads with a clone/drop overlapping uses, or a single-thread history containing failing operations",
         assumptions: vec![
             "the OS scheduler chooses the interleavings (stress exploration, not schedule enumeration); aws-lc and libsodium are not instrumented, so C-side data races are visible only through wrong results or crashes",
         ],
